@@ -4,7 +4,10 @@
 mod abi;
 mod binder;
 mod common;
+mod drive_gas;
 mod drive_gateway;
+mod drive_its;
+mod drive_token;
 mod gas;
 mod gateway;
 mod its;
